@@ -1152,8 +1152,10 @@ class Engine:
         pol = self.c.get('division', 'python')
         if z3.is_rational_value(b) or z3.is_int_value(b):
             return
-        if npy and node.lineno in self.c.get('ieee_zero_division_assumed_away', ()):
-            self.note('ASSUMED: numpy division at line %d has a non-zero divisor (IEEE inf path argued in the contract, not proved)' % node.lineno)
+        divisor_src = ast.unparse(node.right) if isinstance(node, ast.BinOp) else (ast.unparse(node.value) if isinstance(node, ast.AugAssign) else '')
+        if npy and divisor_src.replace(' ', '') in [x.replace(' ', '') for x in self.c.get('ieee_zero_division_assumed_away', ())]:
+            # anchored on the divisor expression, not on a line number
+            self.note('ASSUMED: numpy division by `%s` has a non-zero divisor (IEEE inf path argued in the contract, not proved)' % divisor_src)
             st.assume(b != 0)
         elif npy and pol != 'abort':
             # numpy scalar: x/0 = inf and execution continues; the divisor must be proved non-zero
